@@ -71,10 +71,9 @@ func loadMutants(verif string) ([]Mutant, error) {
 			return nil, fmt.Errorf("%s: %v", m, err)
 		}
 		dir := filepath.Dir(m)
-		exp := meta.Detected
-		if exp == nil {
-			exp = []string{meta.Property}
-		}
+		// a seeded change must be detected by the check of the property it was written to break;
+		// detection by other properties' checks is reported but not required
+		exp := []string{meta.Property}
 		rel, _ := filepath.Rel(verif, filepath.Join(dir, "patch.diff"))
 		out = append(out, Mutant{ID: "seeded/" + filepath.Base(dir), Patch: rel, Expect: exp, Note: meta.Needs})
 	}
